@@ -163,7 +163,7 @@ fn nth_sequence(head: &[u8], mut idx: u64, len: usize) -> Vec<u8> {
 pub fn run(r: &mut Runner) -> &'static str {
     r.rule = "inputs: valid lines in every spelling (+- trailer), one-step mutants of valid lines, token sequences, random bytes, \
               through try_from(&[u8]) and (when UTF-8) try_from(&str); oracle: reference grammar R-V1 in both directions plus exact decode. \
-              non-trivial = accepted by R-V1, or rejected although the input starts with `PROXY ` (passes the keyword gate); distinct by SipHash of the bytes"
+              non-trivial = accepted by R-V1, or rejected although the input starts with `PROXY ` (passes the keyword gate); distinct by SipHash of the bytes Added later: exhaustive single-field sweeps (every numeral in each port position, every 1-3 digit string in each octet position, every 1-4 hex digit string in each group position), TCP6 lines built to an exact length 100..=116, long UTF-8 lines around 107 bytes, chains of related inputs judged back to back from a reused read buffer at rotating offsets."
         .into();
     r.assumptions.push("R-V1 (harness/src/oracle/v1.rs) transcribes the statement of C01; its IPv4/IPv6/port grammars are cross-checked against std at start-up".into());
 
